@@ -597,6 +597,16 @@ def r3(ctx: Ctx, rid: str) -> None:
                 return "seconds"
             if isinstance(e, ast.Attribute) and isinstance(e.value, ast.Name) and e.value.id == "self":
                 for c in [cls] + [ctx.prog.classes[b] for b in cls.base_names if b in ctx.prog.classes]:
+                    # an attribute set once in a constructor: `self.lease = timedelta(seconds=lease_seconds)`
+                    sets = [x.value for m_ in c.methods.values() for x in ast.walk(m_.node) if isinstance(x, ast.Assign) and len(x.targets) == 1
+                            and isinstance(x.targets[0], ast.Attribute) and x.targets[0].attr == e.attr
+                            and isinstance(x.targets[0].value, ast.Name) and x.targets[0].value.id == "self"]
+                    if len(sets) == 1 and isinstance(sets[0], ast.Call) and (dotted(sets[0].func) or "").split(".")[-1] == "timedelta" \
+                            and "lease_seconds" in norm_text(sets[0]):
+                        kws = {k.arg: norm_text(k.value) for k in sets[0].keywords}
+                        good = not sets[0].args and set(kws) == {"seconds"} and "lease_seconds" in kws["seconds"] and kws["seconds"].count("*") == 0 \
+                            and "/" not in kws["seconds"]
+                        return "timedelta" if good else "timedelta-wrong-unit"
                     pm = c.methods.get(e.attr)
                     if pm is not None and any((dotted(d) or "") == "property" for d in getattr(pm.node, "decorator_list", [])):
                         rets = [x.value for x in ast.walk(pm.node) if isinstance(x, ast.Return) and x.value is not None]
